@@ -13,7 +13,8 @@ visited by
     SkipNode}: a recording visitor applying the action at p (thorough: also every pair of positions
     where neither contains the other, for documents with <= 5 reached positions);
   * ChainedVisitor of 2 and 3 recording visitors: identity chains, and every (editing member j,
-    action, position p) (quick: for chains of 3 only the middle member edits);
+    action, position p) (quick: for chains of 3 only the middle member edits, and only identity
+    chains of 3 for the largest size class);
   * the three visitors of py_gql.utilities.ast_transforms.
 
 Oracle (mc/ref/visit.py, reflective: children = all Node-valued slots / list members ordered by loc,
@@ -60,8 +61,8 @@ ASSUMPTIONS = [
     "when an edit's effect on the tree is already wrong, the event list of that run is not judged as well",
 ]
 BOUNDS = {
-    "quick": {"nodes": {"fragvars": 7, "sdl": 5}, "depth": 3, "pair_edits_max_positions": 0, "chain_lengths": [2, 3], "chain_all_members": [2]},
-    "thorough": {"nodes": {"fragvars": 8, "sdl": 6}, "depth": 4, "pair_edits_max_positions": 5, "chain_lengths": [2, 3], "chain_all_members": [2, 3]},
+    "quick": {"nodes": {"fragvars": 7, "sdl": 5}, "depth": 3, "pair_edits_max_positions": 0, "chain_lengths": [2, 3], "chain_all_members": [2], "chain3_edits_up_to_nodes": {"fragvars": 6, "sdl": 4}},
+    "thorough": {"nodes": {"fragvars": 8, "sdl": 6}, "depth": 4, "pair_edits_max_positions": 5, "chain_lengths": [2, 3], "chain_all_members": [2, 3], "chain3_edits_up_to_nodes": {"fragvars": 8, "sdl": 6}},
 }
 TIME_CAP = {"quick": 150, "thorough": 1500}
 CHUNK = 40
@@ -607,6 +608,8 @@ def explore(dialect, n, d, i, b, st):
                         run(cfg, lambda: check_edit(Ctx(text, flags), base, {P.path: a, Q.path: a2}))
     for k in b["chain_lengths"]:
         run({"mode": "chain", "k": k, "j": None}, lambda: check_chain(Ctx(text, flags), base, k, None, None, None))
+        if k > 2 and n > b["chain3_edits_up_to_nodes"][dialect]:
+            continue  # largest size class (quick): chains of 3 only as identity chains
         for P in reach:
             for a in ACTIONS:
                 if a == "delete" and P.index is None:
